@@ -51,6 +51,14 @@ func (m *walMgr) OpenForWrite(id string, cfg *consensus.WALConfig) (consensus.WA
 	for _, r := range pre {
 		ww.durable[string(r)] = true
 	}
+	if filepath.Base(id) == "commit" && len(pre) > 0 {
+		inc := m.inc
+		inc.s.observe(func() {
+			for _, r := range pre {
+				inc.s.orc.onCommitWAL(inc.node, r)
+			}
+		})
+	}
 	if filepath.Base(id) == "round" && len(pre) > 0 {
 		// what the restarted validator finds in its own log it has signed
 		inc := m.inc
@@ -118,9 +126,14 @@ func (w *walW) WriteBytes(b []byte) (int, error) {
 	w.m.inc.crashPoint(siteWALWriteBefore)
 	n, err := w.inner.WriteBytes(b)
 	if err == nil {
+		cp := append([]byte(nil), b...)
 		w.m.mu.Lock()
-		w.written = append(w.written, append([]byte(nil), b...))
+		w.written = append(w.written, cp)
 		w.m.mu.Unlock()
+		if filepath.Base(w.id) == "commit" && w.m.inc.alive() {
+			inc := w.m.inc
+			inc.s.observe(func() { inc.s.orc.onCommitWAL(inc.node, cp) })
+		}
 	}
 	w.m.inc.crashPoint(siteWALWriteAfter)
 	return n, err
